@@ -22,6 +22,130 @@ def utf8_width(cp):
     return 1 if cp < 0x80 else 2 if cp < 0x800 else 3 if cp < 0x10000 else 4
 
 
+def _paths(b, start=0, limit=64):
+    """all acyclic paths entry -> return of a small body, as lists of (block, edge label) with the label of the edge taken out of a switch"""
+    out = []
+
+    def go(i, path, seen):
+        if len(out) > limit or i in seen:
+            return
+        t = b.term(i)
+        if t[0] == "ret":
+            out.append(path + [(i, None)])
+            return
+        if t[0] == "switch":
+            for v, tb in t[2]:
+                go(tb, path + [(i, ("eq", int(v)))], seen | {i})
+            go(t[3], path + [(i, ("other", [int(v) for v, _ in t[2]]))], seen | {i})
+            return
+        nxt = t[1] if t[0] == "goto" else (t[4] if t[0] == "call" else (t[2] if t[0] == "drop" else (t[5] if t[0] == "assert" else None)))
+        if isinstance(nxt, int):
+            go(nxt, path + [(i, None)], seen | {i})
+    go(start, [], set())
+    return out
+
+
+def adaptor_form(ctx, b, r, where):
+    """The same replacement written as an iterator pipeline: `output.extend(region.chars().flat_map(|c| repeat(fill).take(count)))`.
+    Per path through the closure, what is emitted for the character is `count` copies of `fill`; the obligations are those of the loop
+    form: the bytes emitted equal the UTF-8 width of the character (a constant width where the character is known, one 1-byte constant per
+    byte otherwise), and the path on which the character is a line break emits a line break.  Returns False when the body has no such pipeline."""
+    from vlib.mir import norm
+    ext = [c for c in b.calls() if (c.u or "").endswith("Extend::extend") and "alloc::string::String" in (c.ga or "") and "FlatMap<core::str::iter::Chars" in (c.ga or "")]
+    if len(ext) != 1:
+        return False
+    fm = [c for c in b.calls() if (c.u or "").endswith("Iterator::flat_map") and "core::str::iter::Chars" in (c.ga or "")]
+    if len(fm) != 1 or len(fm[0].args) < 2:
+        return False
+    cp_ = op_place(fm[0].args[1])
+    d = b.single_def(cp_[0]) if cp_ is not None and not cp_[1] else None
+    if not (d and d[0] == "stmt" and d[3][0] == "agg" and d[3][1].get("k") == "closure"):
+        return False
+    cls = ctx.prog.get(norm(d[3][1]["def"]))
+    if not cls:
+        return False
+    cl = cls[0]
+    w0 = loc_str(cl.f, [cl.f["line"], 0, 0])
+    if not (cl.f["locals"][0][0] or "").endswith("Take<core::iter::sources::repeat::Repeat<char>>") or cl.f["argc"] != 2:
+        r.finding("shape|closure-result", w0, "the closure of the character pipeline does not return repeat(..).take(..): what it emits per character cannot be established")
+        return True
+    paths = _paths(cl)
+    n = 0
+    saw_nl = False
+    for path in paths:
+        env = {}            # (local, proj names) -> ("const", v) | ("c",) | ("len",) | ("rep", sym) | ("take", sym, sym)
+        known = None        # the character on this path, when compared equal to a constant
+        excluded = set()
+
+        def val(o):
+            if o[0] == "c":
+                return ("const", int(o[3]["int"])) if len(o) > 3 and isinstance(o[3], dict) and "int" in o[3] else None
+            pl = o[1]
+            if pl[0] == 2 and not pl[1]:
+                return ("c",)
+            return env.get((pl[0], tuple(x[2] for x in pl[1] if isinstance(x, list) and x[0] == "f")))
+        for i, edge in path:
+            for s_ in cl.bbs[i]["s"]:
+                if s_[0] != "=":
+                    continue
+                key = (s_[1][0], tuple(x[2] for x in s_[1][1] if isinstance(x, list) and x[0] == "f"))
+                rv = s_[2]
+                if rv[0] == "use":
+                    env[key] = val(rv[1])
+                elif rv[0] == "agg" and rv[1].get("k") == "tuple":
+                    for k_, o in enumerate(rv[2]):
+                        env[(s_[1][0], key[1] + (str(k_),))] = val(o)
+                else:
+                    env[key] = None
+            t = cl.term(i)
+            if t[0] == "switch" and edge is not None:
+                if val(t[1]) == ("c",):
+                    if edge[0] == "eq":
+                        known = edge[1]
+                    else:
+                        excluded |= set(edge[1])
+            if t[0] == "call":
+                nm = (t[1].get("u") or "").split("::")[-1]
+                a = [val(x) for x in t[2]]
+                dk = (t[3][0], tuple(x[2] for x in t[3][1] if isinstance(x, list) and x[0] == "f"))
+                if nm == "len_utf8" and a and a[0] == ("c",):
+                    env[dk] = ("len",)
+                elif nm == "repeat" and (t[1].get("u") or "").startswith("core::iter::sources::repeat") and a:
+                    env[dk] = ("rep", a[0])
+                elif nm == "take" and len(a) == 2 and a[0] and a[0][0] == "rep":
+                    env[dk] = ("take", a[0][1], a[1])
+                else:
+                    env[dk] = None
+        n += 1
+        res = env.get((0, ()))
+        what = "line break" if known == 10 else ("character U+%04X" % known if known is not None else "any other character")
+        inst = "remove_oscat_comment|pipeline path #%d (%s)" % (n, what)
+        if not res or res[0] != "take" or res[1] is None or res[2] is None:
+            r.finding(inst + "|unknown-value", w0, "cannot relate what the closure emits to the current character")
+            continue
+        fill, count = res[1], res[2]
+        if known == 10:
+            saw_nl = True
+            if fill != ("const", 10) or count != ("const", 1):
+                r.finding(inst + "|line-break-replaced", w0, "the line-break branch does not emit exactly one line break: later tokens move to another line")
+                continue
+        if fill == ("c",) and count == ("const", 1):
+            r.ok(inst, w0, "emits the character itself")
+        elif fill[0] == "const" and known is not None and count[0] == "const" and utf8_width(fill[1]) * count[1] == utf8_width(known):
+            r.ok(inst, w0, "%d x a %d-byte constant for a character of width %d" % (count[1], utf8_width(fill[1]), utf8_width(known)))
+        elif fill[0] == "const" and utf8_width(fill[1]) == 1 and count == ("len",) and (fill[1] != 10 or known == 10):
+            r.ok(inst, w0, "one 1-byte constant per byte of the character (take(c.len_utf8()))")
+        else:
+            r.finding(inst + "|width-not-kept", w0, "what is emitted for this character does not have its UTF-8 width: every such character in the comment shifts all later "
+                      "byte offsets (labels point at the wrong text; an offset can land inside a character)")
+    r.ok("remove_oscat_comment|every iteration writes", where, "flat_map over every character; each path emits count >= 1 items (checked per path)")
+    if saw_nl:
+        r.ok("remove_oscat_comment|line breaks are a separate branch", where)
+    else:
+        r.finding("remove_oscat_comment|line-breaks-not-kept", where, "no branch for '\\n': line breaks inside the comment are blanked, later tokens move up")
+    return True
+
+
 def run(ctx, rep, rid="R-C05-blank"):
     r = rep.rule(rid, "the OSCAT pre-processor replaces text byte for byte: its per-character loop writes on every iteration and every write has the "
                       "UTF-8 width of the character it stands for; line breaks are kept", floor=3, floor_what="writes in the blanking loop + loop obligations")
@@ -36,6 +160,8 @@ def run(ctx, rep, rid="R-C05-blank"):
     for c in b.calls():
         if (c.u or "") == "core::iter::traits::iterator::Iterator::next" and "Chars" in (c.ga or ""):
             head = c
+    if head is None and adaptor_form(ctx, b, r, where):
+        return
     if head is None:
         r.finding("shape|no-char-loop", where, "the replacement is no longer produced by a loop over the characters of the comment: byte-for-byte "
                   "correspondence between original and pre-processed text cannot be established")
